@@ -681,7 +681,7 @@ theorem collToList_pw {uns : Bool} {ie oe conv} {v r : Value}
     (hwo : wf oe = true) (hdo : hasDyn oe = false) (hni : namesAll nfc ie = true) (hno : namesAll nfc oe = true)
     (hel : ElemsWF nfc E v ie) (h : applyStep E rec (.collToList oe conv) v = .ok r) : PW nfc r := by
   have hnd : oe.isDyn = false := not_isDyn_of_noDyn hdo
-  simp only [applyStep, hnd] at h
+  simp only [applyStep, hnd, hdo] at h
   split at h
   · simp at h; subst h; exact unknown_pw _
   · obtain ⟨es, hes, h⟩ := Res.bind_eq_ok h
@@ -704,7 +704,7 @@ theorem collToSet_pw {uns : Bool} {ie oe conv} {v r : Value}
     (hwo : wf oe = true) (hdo : hasDyn oe = false) (hni : namesAll nfc ie = true) (hno : namesAll nfc oe = true)
     (hel : ElemsWF nfc E v ie) (h : applyStep E rec (.collToSet oe conv) v = .ok r) : PW nfc r := by
   have hnd : oe.isDyn = false := not_isDyn_of_noDyn hdo
-  simp only [applyStep, hnd] at h
+  simp only [applyStep, hnd, hdo] at h
   obtain ⟨es, hes, h⟩ := Res.bind_eq_ok h
   obtain ⟨es', hes', h⟩ := Res.bind_eq_ok h
   have hm := converted_members hU hrec (post := stripNull) (fun _ hv => stripNull_ty' hv)
@@ -729,7 +729,7 @@ theorem collToMap_pw {uns : Bool} {ie oe conv} {v r : Value}
       (keysOf v).all nfc = true)
     (h : applyStep E rec (.collToMap oe conv) v = .ok r) : PW nfc r := by
   have hnd : oe.isDyn = false := not_isDyn_of_noDyn hdo
-  simp only [applyStep, hnd] at h
+  simp only [applyStep, hnd, hdo] at h
   obtain ⟨es, hes, h⟩ := Res.bind_eq_ok h
   obtain ⟨es', hes', h⟩ := Res.bind_eq_ok h
   have hes'' : mapRes (fun e => (applyOpt rec conv e).map id) es = .ok es' := by
